@@ -5,10 +5,11 @@ COMPONENTS = {
         "coq_run_module": "Timer.SchedRun",
         "accessors": {
             "internal/actor/xv_sched_verif.go": "acc/actor/xv_sched_verif.go",
-            "internal/scheduler/xv_c20keys_verif.go": "acc/scheduler/xv_c20keys_verif.go",
         },
-        "what": ("ctx.Scheduler() Once/Loop/Cron/Cancel/Clear/Exists + cleanup on termination and restart, on real ActorSystems, "
-                 "the real go-quartz scheduler and real time (150 ms slot grid with 150 ms margins) vs Timer/SchedModel.v"),
+        "what": ("ctx.Scheduler() Once/Loop/Cron/Cancel/Clear/Exists + cleanup at the END of the stop sequence of a termination / restart "
+                 "(calls made by the OnKill / child-OnKilled / own-OnKilled handlers included), with non-atomic firings (receivers in long handlers, "
+                 "Tell goroutines suspended between go-quartz's pop and the Tell), on real ActorSystems, the real go-quartz scheduler and real time "
+                 "(150 ms slot grid with 150 ms margins) vs the driver of Timer/SchedFlight.v over Timer/SchedModel.v; job keys vs Timer/SchedKey.v"),
         "timeout": {"quick": 600, "thorough": 3600},
     },
 }
@@ -16,49 +17,70 @@ COMPONENTS = {
 PROPERTIES = {
     "C20": {
         "components": ["sched"],
+        "coq_files": ["Properties/C20.v", "Properties/C20_flight.v"],
         "rule": ("one case = one scenario on its own ActorSystem: 1-3 scripted actors (names from {a, a:b, b, x, y}; with references from {r, s, c, b:c} the "
-                 "pairs (/a, b:c) and (/a:b, c) render the same string 'path:reference' - the collision fixed by 06e0030), rarely the empty reference; ops with nominal times on a 150 ms slot grid: "
-                 "scheduling calls (Once with delays 0/600/1200/1800 ms and the rejected -1500 ms, Loop 600/1200 ms and the rejected 0/-1500 ms, Cron valid (year 2099)) on even slots in two "
+                 "pairs (/a, b:c) and (/a:b, c) render the same string 'path:reference' - the collision fixed by 06e0030), rarely the empty reference; a third of the actors "
+                 "spawn a child in every OnLaunch; ops with nominal times on a 150 ms slot grid: "
+                 "scheduling calls (Once with delays 0/600/1200/1800 ms and the rejected -1500 ms, Loop 600/1200 ms and the rejected 0/-1500 ms, Cron: year-2099 expressions and a "
+                 "mutation corpus whose validity bit is go-quartz's own ValidateCronExpression) on even slots in two "
                  "lanes, everything sensitive to firings (Cancel of known/unknown references, Clear, Exists, kill, restart by a panicking "
                  "handler under a restarting supervisor, invalid Cron, dumps of every actor's jobKeys and of the quartz queue through "
                  "accessors, the final observation) on odd slots, 150 ms away from every ideal firing instant; a key is scheduled at most "
-                 "twice, the second time in the other lane (re-use of a live reference is rejected, re-use after the job is gone succeeds); receivers are the owner or another (possibly dead) actor. Compared with the "
-                 "model: every return value, Exists, every dump, and per scheduling call the number of deliveries and of dead letters. "
+                 "twice, the second time in the other lane (re-use of a live reference is rejected, re-use after the job is gone succeeds); receivers are the owner or another (possibly dead) actor. "
+                 "EPISODES (a quarter of the odd-slot ops): a LONG HANDLER (the actor's mailbox goroutine waits in a closure for 2-6 slots while firings queue up behind it; at its end, inside the "
+                 "handler, Cancel / Clear / Exists, or a Kill enqueued while it still runs, or it panics = restart); a HOLD (the actor's own logger - vivid.WithActorLogger - suspends the goroutine "
+                 "go-quartz started for a firing at the 'scheduler trigger' line of Scheduler.tell, i.e. after the pop and before the Tell, for 2-6 slots, while the owner cancels / clears / is killed / restarted); "
+                 "a STOP SEQUENCE whose handlers still call the scheduler (half of all kills and restarts: 1-3 Once / Loop / Cancel / Exists calls in the OnKill handler, the handler of the child's OnKilled, the own "
+                 "OnKilled handler, with firing instants after the end of the sequence) and stop sequences that wait 300/600 ms for the child (the actor's jobs keep firing meanwhile, into dead letters when addressed to it). "
+                 "Compared with the model (the driver of Timer/SchedFlight.v): every return value (also of the calls made inside handlers), Exists, every dump (the per-actor reference record and the go-quartz queue are located by reflection; a build of vivid that does not offer one of them is compared without it and info.internal_observations says so), and per scheduling call the number of deliveries and of dead letters "
+                 "and the SLOT of every arrival. "
                  "A watchdog measures scheduling gaps (> 60 ms) and op lateness (> 50 ms), and a canary - a 30 ms Loop of the harness's own in the "
                  "same quartz scheduler, whose arrivals bound the lateness of every tested firing - must never be more than 75 ms apart: "
-                 "a disturbed scenario is discarded and re-run, never judged. 16 directed scenarios (each examined weakness, rejected arguments, kill, restart, Cron, many jobs) + seeded random ones; plus one "
-                 "scenario in a child process that is suspended with SIGSTOP across the instant of a Once (compared with the model's Stall). "
-                 "non-trivial = at least one message was told and at least one Cancel/Clear/kill/restart happened; distinct = distinct input terms"),
+                 "a disturbed scenario is discarded and re-run, never judged. 19 directed scenarios (each examined weakness, rejected arguments, kill, restart, the same reference on the receiver of another actor's job, Cron corpus, many jobs) + 14 directed flight / stop-sequence "
+                 "scenarios + seeded random ones; plus one "
+                 "scenario in a child process that is suspended with SIGSTOP across the instant of a Once (compared with the atomic model's Stall); plus 800 job-key cases (quartz.NewJobKeyWithGroup / Equals on strings with "
+                 "empty group, 'default', ':' and '::', and uniqueJobKey of ten real actors) against Timer/SchedKey.v. "
+                 "non-trivial = at least one message was told and at least one Cancel/Clear/kill/restart/long handler happened; distinct = distinct input terms"),
         "modelled_not_verified": [
-            "M8: go-quartz is third-party; its queue is modelled as a table keyed by the job key (group = owner path, name = reference), its execution loop per job (prompt while OTick, absent while OStall), its misfire rule (OutdatedThreshold 100 ms) as read from quartz/scheduler.go validateJob; cron parsing is a validity flag given with the op and a valid cron job never fires within the model's horizon",
+            "M8: go-quartz is third-party; its queue is modelled as a table keyed by the job key (group = owner path, name = reference; an empty group would become 'default', Timer/SchedKey.v, checked differentially), its execution loop per job (prompt while OTick, absent while OStall), its misfire rule (OutdatedThreshold 100 ms) as read from quartz/scheduler.go validateJob; cron parsing is a validity flag given with the op - in the correspondence runs the flag is the answer of go-quartz's own ValidateCronExpression for an expression of a mutation corpus - and a valid cron job never fires within the model's horizon",
             "M6: time is a virtual clock in ms; the correspondence runs use real time with 150 ms margins and discard runs in which a scheduling gap > 60 ms, an op later than 50 ms or a canary gap > 75 ms was measured",
-            "a firing is atomic in the model (the Tell happens at the firing instant); in the code the Tell is done by a goroutine quartz starts at the firing instant, so a message can be enqueued after a Cancel that followed the instant returned (examined case (e): measured as statistics only, not modelled)",
+            "a firing is two steps (Timer/SchedFlight.v): the pop at the instant and, at any later time, the arrival at the behaviour or the dead-letter stream (FLand); the goroutine's enqueue and the mailbox's dequeue are one step; that a Tell in flight eventually arrives (fair goroutine scheduling, a receiver that returns from its handlers) is not modelled - the theorems say 'in flight or arrived'",
+            "the hold control of the harness relies on the Debug line 'scheduler trigger' at the beginning of Scheduler.tell (public logger API); without that line hold scenarios are left out (reported in info.hold_control), long-handler and stop-sequence scenarios do not need it",
             "M7: default references are fresh UUIDs; the model takes the reference as an operand",
-            "jobKeys is only touched by its owner's goroutine (calls are made inside handlers; C01); system.Scheduler() used from foreign goroutines is outside the model",
-            "termination and restart are the atomic steps ODied / ORestarted (= Clear, then dead / alive); the few instructions between removeActorContext and cleanupScheduler in killed_handler.go are not a separate step",
-            "a dead actor performs no call (none of its handlers runs); a call through a retained context of a dead actor is outside the model",
+            "jobKeys is only touched by its owner's goroutine (calls are made inside handlers; C01); ctx.Scheduler() used from foreign goroutines (the interface comment asks implementations to be thread-safe, jobKeys is an unlocked map) is outside the model - an observation of DESIGN 8.3, C10's territory",
+            "the stop sequence: FStopping a (doKill: state killing, user messages for a become dead letters, nothing cleared), then the handlers of the sequence as ordinary ops of a, then ODied a / ORestarted a = killedHandler.cleanupScheduler (Clear) after the own OnKilled handler; during a restart the mailbox is paused, so nothing arrives for a inside the sequence (the harness's sequences are shorter than any firing distance unless they wait for a child - termination only)",
+            "a dead actor performs no call (none of its handlers runs); a call through a retained context of a dead actor, and scheduler calls from OnRestarted / OnPrelaunch (their contexts do not expose the scheduler), are outside the model",
         ],
     },
 }
 
 META = {
     "C20": {
-        "text": ("23 kernel-checked theorems about the Gallina model of the per-actor Scheduler on the go-quartz queue (virtual clock; job key = the pair "
+        "text": ("47 kernel-checked theorems. Part 1 (Properties/C20.v, 23): the Gallina model of the per-actor Scheduler on the go-quartz queue (virtual clock; job key = the pair "
                  "(owner path, reference); negative delays, non-positive intervals, an empty or still-queued reference are rejected and change nothing; jobKeys written after a "
-                 "successful quartz ScheduleJob; Cancel/Clear delete by key; termination and restart = Clear; quartz's misfire rule), for ALL op sequences of Once/Loop/Cron/Cancel/Clear/Exists by any actors, terminations, restarts and clock steps: a Once is told at most once and "
-                 "never before t0+d; removed by its owner (Cancel, Clear, termination, restart) before the instant it is never told (no delivery, no dead letter), and after such a removal "
-                 "no job tells anything any more; a Loop tells at t0+i, t0+2i, ... (an initial segment, complete while not removed); an invalid Cron returns the parse error and changes nothing; "
+                 "successful quartz ScheduleJob; Cancel/Clear delete by key; termination and restart = Clear; quartz's misfire rule), for ALL op sequences of Once/Loop/Cron/Cancel/Clear/Exists by any actors, terminations, restarts and clock steps: a Once is popped at most once and "
+                 "never before t0+d; removed by its owner (Cancel, Clear, termination, restart) before the instant it is never popped (no delivery, no dead letter), and after such a removal "
+                 "no job is popped any more; a Loop at t0+i, t0+2i, ... (an initial segment, complete while not removed); an invalid Cron returns the parse error and changes nothing; "
                  "Cancel of an unknown reference returns not-found and changes nothing; whatever is told carries the scheduled payload to the scheduled receiver; every queued job is "
-                 "registered in its live owner's jobKeys, so termination/restart leave no job of the actor and nothing is told on its behalf afterwards. 'Delivered exactly once at t0+d' (C20_once) and 'exactly the instants t0+k*i' "
+                 "registered in its live owner's jobKeys, so termination/restart leave no job of the actor. 'Exactly once at t0+d' (C20_once) and 'exactly the instants t0+k*i' "
                  "(C20_loop) hold for every call that returned nil and is not removed by its owner, for all op sequences without a stall of the quartz loop; with a stall they are "
-                 "REFUTED by witnesses that reproduce on the code (go-quartz drops a Once that is > 100 ms late and skips Loop firings: known finding, third-party rule). The earlier "
-                 "weaknesses (re-use of a live reference silently dropped, colliding keys through ':' in paths/references, negative delay never firing, non-positive interval "
+                 "REFUTED by witnesses that reproduce on the code (go-quartz drops a Once that is > 100 ms late and skips Loop firings: known finding, third-party rule). "
+                 "Part 2 (Properties/C20_flight.v, 24): the firing is NOT atomic - the pop at the instant, then the Tell from a goroutine of its own, then the receiver's mailbox. For ALL step sequences of the "
+                 "refined machine (any Tell in flight may arrive at any later time): its base is exactly the atomic model (so Part 1 is about the pops); every pop is in flight or has arrived exactly once; "
+                 "a Once is never in flight twice and never arrives before t0+d; removed before its instant nothing ever arrives; not removed it is popped at t0+d and is then in flight or arrived, delivered unless the receiver is dead or stopping; "
+                 "a Loop's arrivals and Tells in flight are together exactly one per interval; after Cancel / Clear / termination / restart NO message whose firing instant lies after the removal arrives and exactly the Tells in flight at the removal may still arrive "
+                 "(C20_flight_removed) - 'nothing arrives after Cancel returned' and 'at most one Tell in flight per Loop' are REFUTED by witnesses that reproduce on the code (not violations of the property as stated: their firing instants precede the Cancel). "
+                 "The stop sequence has phases: it begins (FStopping: nothing cleared, user messages for the actor become dead letters), its handlers (OnKill, the children's OnKilled, the own OnKilled) still call the scheduler - real calls, accepted and queued - "
+                 "and it ENDS with Clear: for every step sequence and every such killing phase no job of the incarnation, whenever scheduled, fires at an instant after the termination (C20_stop_sequence) / restart (C20_restart_sequence); a Tell in flight at a restart is delivered to the new incarnation (observation). "
+                 "The job key the code builds (NewJobKeyWithGroup(reference, path), empty group -> 'default') is the model's pair for every actor path and all strings, hence injective on actors (refuted only for the empty path, which no actor has). "
+                 "The driver used by the correspondence check (long handlers, suspended Tell goroutines, stop sequences) is proved to be a scheduler of the general machine, and the atomic model to be its prompt schedule. "
+                 "The earlier weaknesses (re-use of a live reference silently dropped, colliding keys through ':' in paths/references, negative delay never firing, non-positive interval "
                  "spinning the quartz loop) were repaired in /repo (06e0030, 9c4b505, 7fd453c) and the model follows the repaired code. Tied to the code on every run by whole-scenario "
                  "differential runs on real actor systems in real time."),
         "design_ref": "DESIGN.md §4 C20",
         "note": ("Trusted: Coq kernel + vm_compute; ExtrOcamlBasic extraction (cross-checked by vm_compute on a sample each run); the harness (slot grid, watchdog, bookkeeping of removals), "
-                 "the add-only accessors internal/actor/xv_sched_verif.go and internal/scheduler/xv_c20keys_verif.go; go-quartz as modelled (M8). Real-time runs cannot distinguish "
-                 "instants closer than the margins."),
-        "technique": "Coq proof (representation invariant + per-call tracking by induction over op sequences) over a hand-written model + differential correspondence check against the Go code in real time",
+                 "the flight controls (blocking closures, the gate logger), the add-only accessor file internal/actor/xv_sched_verif.go (it names no unexported identifier of vivid: the per-actor reference record and the go-quartz scheduler are located by reflection on the type of the fields, and an observation that cannot be located is projected out and reported, never a build failure); go-quartz as modelled (M8). Real-time runs cannot distinguish "
+                 "instants closer than the margins; arrival times are compared at the resolution of the 150 ms slot."),
+        "technique": "Coq proof (representation invariant + per-call tracking by induction over op sequences; refinement of the atomic model by a machine with in-flight Tells and stop-sequence phases, conservation invariant by permutation) over a hand-written model + differential correspondence check against the Go code in real time with controlled in-flight delays",
     },
 }
